@@ -383,6 +383,13 @@ func runOp(ts *taskState, op *wire.Op) (r wire.OpResult) {
 		// the process environment changes between two calls (Path = name,
 		// Format = value, "" unsets); sequential execution only
 		ts.envUndo = append(ts.envUndo, setEnv(map[string]string{op.Path: op.Format}))
+	case "New":
+		// (the parser was created above, before anything else happens)
+	case "Chdir":
+		// the process changes its working directory between two calls
+		if err := os.Chdir(op.Path); err != nil {
+			return fail(err)
+		}
 	case "SetRoot":
 		if err := ts.p.SetRoot(op.Path); err != nil {
 			return fail(err)
